@@ -36,6 +36,10 @@ fn main() {
     install_panic_hook();
     let args: Vec<String> = std::env::args().collect();
     let verif_dir = PathBuf::from(std::env::var("VERIF_DIR").unwrap_or_else(|_| "/verif".into()));
+    if args.len() >= 3 && args[1] == "gen-corpus" {
+        gen_corpus(&PathBuf::from(&args[2]));
+        return;
+    }
     if args.len() >= 3 && args[1] == "replay" {
         std::process::exit(replay_file(&properties(), &PathBuf::from(&args[2])));
     }
@@ -66,4 +70,70 @@ fn main() {
     // wall-clock / memory ceiling: inconclusive (exit 2), never a violation
     start_watchdog(tier.pick(900, 6 * 3600), 24_000);
     std::process::exit(run_property(prop, &cfg));
+}
+
+/// Write the committed seed corpora of the two fuzz targets (deterministic).
+fn gen_corpus(dir: &std::path::Path) {
+    use proptest::strategy::{Strategy, ValueTree};
+    use proptest::test_runner::{Config, RngSeed, TestRunner};
+    let mut runner = TestRunner::new(Config { rng_seed: RngSeed::Fixed(20260926), failure_persistence: None, ..Config::default() });
+    // --- c15_readers: byte 0 = reader, byte 1 = chunking, rest = file
+    let d15 = dir.join("c15_readers");
+    std::fs::create_dir_all(&d15).unwrap();
+    let sel = |f: c14::Format, abc: gen::Abc| -> u8 {
+        match (f, abc) {
+            (c14::Format::Jaspar, _) => 0,
+            (c14::Format::Jaspar16, gen::Abc::Dna) => 1,
+            (c14::Format::Jaspar16, gen::Abc::Protein) => 2,
+            (c14::Format::Transfac, gen::Abc::Dna) => 3,
+            (c14::Format::Transfac, gen::Abc::Protein) => 4,
+            (c14::Format::Uniprobe, gen::Abc::Dna) => 5,
+            (c14::Format::Uniprobe, gen::Abc::Protein) => 6,
+        }
+    };
+    let strat = c14::file_strategy(3);
+    for i in 0..40 {
+        let f = strat.new_tree(&mut runner).unwrap().current();
+        let mut bytes = vec![sel(f.format, f.abc), (i % 6) as u8];
+        bytes.extend(c14::write_file(&f));
+        if bytes.len() <= 4096 {
+            std::fs::write(d15.join(format!("gen-{:02}", i)), bytes).unwrap();
+        }
+    }
+    let repo = std::env::var("VERIF_REPO").unwrap_or_else(|_| "/repo".into());
+    for (p, s) in [
+        ("lightmotif-io/tests/MA0001.3.pfm", 1u8),
+        ("lightmotif-io/tests/MA0017.3.pfm", 1),
+        ("lightmotif-io/tests/M00005.transfac", 3),
+        ("lightmotif-io/tests/MA0001.2.transfac", 3),
+        ("lightmotif-io/tests/MX000001.transfac", 3),
+        ("lightmotif-io/tests/Cha4.uniprobe", 5),
+        ("lightmotif-io/tests/Gal4.uniprobe", 5),
+        ("lightmotif-io/tests/demo.uniprobe", 5),
+    ] {
+        if let Ok(b) = std::fs::read(format!("{}/{}", repo, p)) {
+            for chunk in [0u8, 1] {
+                let mut bytes = vec![s, chunk];
+                bytes.extend(&b);
+                let name = p.rsplit('/').next().unwrap();
+                std::fs::write(d15.join(format!("repo-{}-{}", name, chunk)), bytes).unwrap();
+            }
+        }
+    }
+    std::fs::write(d15.join("empty-jaspar"), [0u8, 0]).unwrap();
+    std::fs::write(d15.join("empty-uniprobe"), [5u8, 1]).unwrap();
+    // --- c06_ops: pseudo-random op streams of several lengths
+    let d06 = dir.join("c06_ops");
+    std::fs::create_dir_all(&d06).unwrap();
+    let mut s = 0xC06u64;
+    for i in 0..48 {
+        let n = 24 + (i % 8) * 24;
+        let bytes: Vec<u8> = (0..n)
+            .map(|_| {
+                s = engine::splitmix64(s);
+                (s >> 24) as u8
+            })
+            .collect();
+        std::fs::write(d06.join(format!("rand-{:02}", i)), bytes).unwrap();
+    }
 }
